@@ -40,14 +40,6 @@ Inductive sel :=
    PathSegmentOfString for map keys *)
 Inductive pseg := PI (i : Z) | PK (k : bytes).
 
-Fixpoint dec_digits (fuel : nat) (n : N) (acc : bytes) : bytes :=
-  match fuel with
-  | O => acc
-  | S fu => let d := (48 + n mod 10)%N in
-            if (n <? 10)%N then d :: acc else dec_digits fu (n / 10) (d :: acc)
-  end.
-(* strconv.FormatInt(i, 10) for i >= 0 (list positions) *)
-Definition dec_of_Z (z : Z) : bytes := dec_digits 20 (Z.to_N z) [].
 Definition pseg_string (p : pseg) : bytes := match p with PI i => dec_of_Z i | PK k => k end.
 
 Definition pseg_eqb (a b : pseg) : bool :=
